@@ -106,7 +106,7 @@ const CHARS: &[&str] = &[
     "\"", "<", "&",
 ];
 const POOL: &[&str] = &[
-    "", "A", "APP", "APP1", "CTX", "ECU", "é", "€a", "TEST", "Ab7 ", "NONE", "APP ", "app", "Ecu",
+    "", "A", "APP", "APP1", "CTX", "ECU", "é", "€a", "TEST", "Ab7 ", "NONE", "APP ", "app", "Ecu", "Ł",
 ];
 
 fn short_text(u: &mut U, max: usize) -> String {
@@ -510,12 +510,12 @@ fn stream(u: &mut U, storage: bool) -> Vec<u8> {
                     }
                     4 => {
                         if let Some(x) = &mut cur.ext {
-                            x.apid = ["APP", "A", "", "CTX"][r % 4].to_string();
+                            x.apid = ["APP", "A", "", "CTX", "A\0bc", "\0xyz"][r % 6].to_string();
                         }
                     }
                     5 => {
                         if let Some(x) = &mut cur.ext {
-                            x.ctid = ["CTX", "CON", "APP", ""][r % 4].to_string();
+                            x.ctid = ["CTX", "CON", "APP", "", "CO\0N", "CTX"][r % 6].to_string();
                         }
                     }
                     6 => cur.mcnt = r as u8,
